@@ -184,6 +184,7 @@ pub struct Tier {
     pub comp_configs: usize,
     pub n_gen: usize,
     pub gen_configs: usize,
+    pub n_mut: usize,
 }
 
 fn envnum(name: &str, default: usize) -> usize {
@@ -199,6 +200,7 @@ pub fn tier(name: &str) -> Tier {
             comp_configs: envnum("VERIF_C12_COMP_CONFIGS", 16),
             n_gen: envnum("VERIF_C12_NGEN", 4000),
             gen_configs: envnum("VERIF_C12_GEN_CONFIGS", 16),
+            n_mut: envnum("VERIF_C12_NMUT", 2500),
         }
     } else {
         Tier {
@@ -208,6 +210,7 @@ pub fn tier(name: &str) -> Tier {
             comp_configs: envnum("VERIF_C12_COMP_CONFIGS", 5),
             n_gen: envnum("VERIF_C12_NGEN", 400),
             gen_configs: envnum("VERIF_C12_GEN_CONFIGS", 5),
+            n_mut: envnum("VERIF_C12_NMUT", 250),
         }
     }
 }
@@ -765,6 +768,25 @@ pub fn run_check(tier_name: &str, seed: u64, verif_dir: &str) -> Outcome {
         kinds.push("composition");
         made += 1;
     }
+    // seeded small mutations of repository samples
+    let mut mrng = rng.fork(4);
+    made = 0;
+    tries = 0;
+    while made < tier.n_mut && tries < tier.n_mut * 20 && !samples.is_empty() {
+        tries += 1;
+        let si = mrng.below(samples.len() as u64) as usize;
+        let annotate = mrng.chance(1, 2);
+        let mut p = corpus::mutate_sample(&samples[si], &mut mrng, annotate);
+        p.features = corpus::features_of(&p.files, &builtins);
+        if p.features.iter().any(|f| fenced.contains(f)) {
+            fenced_skipped += 1;
+            continue;
+        }
+        programs.push(p);
+        configs.push(tier.comp_configs);
+        kinds.push("sample_mutant");
+        made += 1;
+    }
     let mut grng = rng.fork(2);
     made = 0;
     tries = 0;
@@ -966,7 +988,7 @@ pub fn run_check(tier_name: &str, seed: u64, verif_dir: &str) -> Outcome {
             "samples": [sample],
             "scenarios": scenarios.len(),
             "programs": programs.len(),
-            "program_pool": {"corpus": samples.len() * 2, "compositions": kinds.iter().filter(|k| **k == "composition").count(), "generated": kinds.iter().filter(|k| **k == "generated").count()},
+            "program_pool": {"sample_mutants": kinds.iter().filter(|k| **k == "sample_mutant").count(), "corpus": samples.len() * 2, "compositions": kinds.iter().filter(|k| **k == "composition").count(), "generated": kinds.iter().filter(|k| **k == "generated").count()},
             "generated_accepted": format!("{}/{}", gen_accept.0, gen_accept.1),
             "compositions_accepted": format!("{}/{}", comp_accept.0, comp_accept.1),
             "fenced_by_open_findings": {"features": fenced.iter().collect::<Vec<_>>(), "generated_or_composed_skipped": fenced_skipped, "corpus_programs_skipped": fenced_corpus},
